@@ -7,6 +7,7 @@ import (
 	"net"
 	"net/http"
 	"os"
+	"path/filepath"
 	"regexp"
 	"runtime"
 	"sort"
@@ -129,6 +130,7 @@ func runCase(c Case) vlib.Result {
 	baseFD := vlib.OpenFDs()
 
 	var opens, closes, dialCalls int64
+	var respawnPeer func(net.Conn)
 	var stop func() error
 	var addrs []string
 	var core *nbio.Engine
@@ -148,7 +150,19 @@ func runCase(c Case) vlib.Result {
 				_ = conn.Close() // e.g. a connection limit or an address filter refusing the connection
 			}
 		})
-		g.OnClose(func(*nbio.Conn, error) { atomic.AddInt64(&closes, 1) })
+		g.OnClose(func(conn *nbio.Conn, _ error) {
+			atomic.AddInt64(&closes, 1)
+			if conn.Session() == "respawn" {
+				// an application that replaces a lost connection from its close handler: when the close is
+				// Stop's, the replacement is registered while Stop runs and has to be closed by it as well
+				if a1, p, err := vlib.StreamPair("tcp", 4096, 4096); err == nil {
+					respawnPeer(p)
+					if _, err := g.AddConn(a1); err != nil {
+						_ = a1.Close()
+					}
+				}
+			}
+		})
 		g.OnData(func(conn *nbio.Conn, data []byte) { _, _ = conn.Write(data) })
 		core = g
 		var serr error
@@ -222,6 +236,7 @@ func runCase(c Case) vlib.Result {
 		peerAt = append(peerAt, time.Now())
 		pmu.Unlock()
 	}
+	respawnPeer = addPeer
 	var helperLn net.Listener
 	openAtStop := 0
 	racing := 0
@@ -289,7 +304,16 @@ func runCase(c Case) vlib.Result {
 					}
 				}
 				_ = p.SetDeadline(time.Time{})
-			case "addconn", "backlog", "sendfile", "backlog-sendfile", "fardeadline", "serverclose", "overflow", "write-after-reset":
+			case "dial-fail-sync":
+				// a dial whose connect(2) fails at once (no such unix socket): nothing may stay behind
+				if core == nil {
+					continue
+				}
+				err := core.DialAsync("unix", filepath.Join(os.TempDir(), fmt.Sprintf("verif-c18-nobody-%d.sock", os.Getpid())), func(nc *nbio.Conn, err error) {})
+				if err == nil {
+					atomic.AddInt64(&dialCalls, 1)
+				}
+			case "addconn", "respawn-on-close", "backlog", "sendfile", "backlog-sendfile", "fardeadline", "serverclose", "overflow", "write-after-reset":
 				if core == nil {
 					continue
 				}
@@ -334,6 +358,8 @@ func runCase(c Case) vlib.Result {
 						time.Sleep(200 * time.Microsecond)
 					}
 					openAtStop--
+				case "respawn-on-close":
+					nbc.SetSession("respawn")
 				case "fardeadline":
 					_ = nbc.SetDeadline(time.Now().Add(time.Hour))
 				case "serverclose":
@@ -552,7 +578,7 @@ func gen(t *rapid.T) Case {
 	} else {
 		n := rapid.IntRange(0, 8).Draw(t, "nacts")
 		for i := 0; i < n; i++ {
-			c.Acts = append(c.Acts, Act{K: rapid.SampledFrom([]string{"client", "client-traffic", "client-traffic", "client-close", "addconn", "dial", "dial-refused", "backlog", "sendfile", "backlog-sendfile", "fardeadline", "serverclose", "overflow", "write-after-reset", "ws", "ws-transfer", "ws-traffic", "ws-transfer-traffic"}).Draw(t, "act")})
+			c.Acts = append(c.Acts, Act{K: rapid.SampledFrom([]string{"client", "client-traffic", "client-traffic", "client-close", "addconn", "respawn-on-close", "dial", "dial-refused", "dial-fail-sync", "backlog", "sendfile", "backlog-sendfile", "fardeadline", "serverclose", "overflow", "write-after-reset", "ws", "ws-transfer", "ws-traffic", "ws-transfer-traffic"}).Draw(t, "act")})
 		}
 	}
 	if rapid.IntRange(0, 3).Draw(t, "refuse") == 0 {
